@@ -207,7 +207,7 @@ fn gen_image(t: &mut Tape, link_arch: Option<(u16, bool)>) -> Image {
         } else {
             None
         };
-        Some(Dynamic { syms, needed, soname, plt, rel, meta_seg, dyn_seg, extra_tags: t.chance(1, 2), mips_got })
+        Some(Dynamic { syms, needed, soname, plt, rel, meta_seg, dyn_seg, extra_tags: t.chance(1, 2), mips_got, needed_spread: t.chance(1, 3) })
     } else {
         None
     };
@@ -922,6 +922,25 @@ fn check_single(img: &Image, base: u64, user_model: &[Addr], obs: &mut Obs) -> R
     if let Some(fe) = &fe_b {
         check_entries(&b, &user, base, fe, "C19|function_entries", &mut fails);
     }
+    // the same question on another history: the entries are looked at once, THEN the user gives
+    // its entries; what is reported afterwards is judged by the same rule
+    if !user.is_empty() {
+        obs.class("user-entries-given-after-a-first-look");
+        match guard(|| Elf::new(b.bytes.clone(), base)) {
+            Ok(Ok(mut late)) => {
+                let before = entries_at(&late, "before the user entries");
+                for u in &user {
+                    late.add_user_function(*u);
+                }
+                match (before, entries_at(&late, "user entries given after a first look")) {
+                    (Ok(_), Ok(fe)) => check_entries(&b, &user, base, &fe, "C19|function_entries|users-after-first-look", &mut fails),
+                    (Err(f), _) | (_, Err(f)) => fails.push(f),
+                }
+            }
+            Ok(Err(_)) => {}
+            Err(_) => {}
+        }
+    }
 
     // ---- the same file at base 0: everything must be exactly `base` lower ---------------------
     let syms_of = |e: &Elf| -> Result<(BTreeSet<(String, u64)>, BTreeSet<(String, u64)>), Failure> {
@@ -1183,6 +1202,9 @@ fn check_link(objs: &[Obj], obs: &mut Obs) -> Result<(), Failure> {
         Err(pi) => fv::fail!("C19|linker|panic", "ElfLinker panicked: {} ({}:{})", pi.msg, pi.file, pi.line),
     };
     let mut fails: Vec<Failure> = Vec::new();
+    if objs.iter().any(|o| o.image.dynamic.as_ref().map(|d| d.needed_spread && d.needed.len() >= 2).unwrap_or(false)) {
+        obs.class("link-dt-needed-spread-among-other-tags");
+    }
     // where did each object go?
     let mut bases: Vec<u64> = Vec::new();
     for o in objs {
@@ -1686,6 +1708,8 @@ fn main() -> std::process::ExitCode {
         ("segments-on-adjacent-pages", 0.20),
         ("segments-4", 0.10),
         ("base-0", 0.05),
+        ("link-dt-needed-spread-among-other-tags", 0.002),
+        ("user-entries-given-after-a-first-look", 0.20),
         ("base-0x40000000", 0.08),
         ("base-random-page", 0.20),
         ("base-unaligned", 0.05),
